@@ -20,6 +20,7 @@ META = {
                 'orthonormal factors + uniqueness (linear algebra, not re-proved); what IS decided: the factors are the contract-orthonormal SVD '
                 'outputs and multiply back to the tensor', 'floating-point rounding'],
     'assumptions': ['SVD contract (product, orthonormal factors, sorted non-negative s); s_last > 0 where pinv divides by s'],
+    'replay_random': 10,
     'tv_per_scenario': {'quick': 2, 'thorough': 4},
 }
 
@@ -245,6 +246,12 @@ def svd_truncated(ctx, shape, index, ortho_l, ortho_r, cplx, max_rank):
         ctx.check(tag + ': bond ranks agree', u.ranks[-1] == r == v.ranks[0])
         if max_rank is not None:
             ctx.check(tag + ': every rank <= max_rank', all(x <= max_rank for x in u.ranks[1:] + v.ranks[:-1]))
+        if ctx.mode == 'conc':
+            # replays: every returned singular value lies above the relative cut (the sweeps before the middle SVD truncate too, so the returned
+            # values are those of a slightly truncated tensor: comparing them with the spectrum of the original unfolding would be unsound)
+            sn = np.asarray(s, dtype=float)
+            ctx.check('svd(theta, max_rank): every returned singular value is above the relative cut', bool(np.all(sn / sn[0] > float(theta))),
+                      detail='%s, theta %.4f' % ((sn / sn[0]).tolist(), float(theta)))
         if ctx.sym:
             from symtt import state
             mid = [c for c in state.S.stub_log if c.kind == 'svd'][-1]
